@@ -1,7 +1,7 @@
 (* C15/Props.v : the property theorems.  Model: C15/Model.v; specification: Model.denote
    (structural recursion with matrix sum/product/power over Base/Mat.embed).  *)
 From Coq Require Import ZArith List Bool Arith Sorted Permutation.
-From QV Require Import Base.Mat Base.Zi C15.MatDefs C15.Model C15.MatAlg C15.Proofs C15.Proofs2 C15.Proofs3 C15.Proofs4 C15.Proofs5 C15.Proofs6.
+From QV Require Import Base.Mat Base.Zi C15.MatDefs C15.Model C15.MatAlg C15.Proofs C15.Proofs2 C15.Proofs3 C15.Proofs4 C15.Proofs5 C15.Proofs6 C15.Proofs7.
 Import ListNotations.
 
 (* ---- dense route: _get_symbol_matrix / calculate_dense compute the mathematical operator ---- *)
@@ -47,61 +47,32 @@ Example terms_ok_nonvacuous :
   smonos_op 2 ms = denote 2 (FAdd (FMul (FNum (2, 0)%Z) (FMul (FSym PX 0) (FMul (FPow (FSym PY 0) 3) (FPow (FSym PZ 1) 2)))) (FNum (0, 1)%Z)).
 Proof. split; [repeat constructor|vm_compute; reflexivity]. Qed.
 
-(* ---- application to states: h @ psi, h @ rho ---- *)
-(* full statement  apply_ok : forall n f ms S, ... -> apply_gates_prefix n (terms_of ms) S = apply_spec n f S
-   is FALSE of the faithful model: SymbolicTerm.__call__ applies the factors in list order *)
-Theorem apply_ok_refuted : exists n f ms S,
-  form_ok n f = true /\ Forall (smono_ok n) ms /\ smonos_op n ms = denote n f /\ wfm (2 ^ n) 1 S /\
-  apply_gates_prefix n (terms_of ms) S <> apply_spec n f S.
-Proof.
-  exists 1, w_xy, w_xy_ms, w_psi0. destruct apply_refuted_witness as (H1 & H2 & H3 & H4 & _).
-  repeat split; try assumption; try apply H3. repeat constructor.
-Qed.
-Print Assumptions apply_ok_refuted.
-
-(* proved part: forms whose terms have at most one factor per qubit (all forms of the unit tests).
-   Excluded: terms with several factors on one qubit (X0*Y0, X0*Z1*X0, ...). *)
-Theorem apply_ok_partial : forall n c f ms S,
-  Forall (smono_ok n) ms -> smonos_op n ms = denote n f ->
-  one_factor_per_qubit (fst (terms_of ms)) = true ->
-  (fst (terms_of ms) <> [] \/ snd (terms_of ms) <> zi0) ->
-  wfm (2 ^ n) c S ->
-  apply_gates_prefix n (terms_of ms) S = apply_spec n f S.
-Proof. exact apply_partial. Qed.
-Print Assumptions apply_ok_partial.
-
-Example apply_ok_partial_nonvacuous :
-  let ms := [((-1, 0)%Z, [SF PZ 0 1; SF PZ 1 1]); ((3, 0)%Z, [SF PX 0 1])] in
-  Forall (smono_ok 2) ms /\ one_factor_per_qubit (fst (terms_of ms)) = true /\ fst (terms_of ms) <> [].
-Proof. split; [repeat constructor|split; [reflexivity|discriminate]]. Qed.
-
-(* with the factors applied last-to-first (proposed repair) the statement holds for every form *)
-Theorem apply_ok_fixed : forall n c f ms S,
+(* ---- application to states: h @ psi, h @ rho (SymbolicTerm.__call__ applies the factors
+        last-to-first; apply_gates adds the constant) ---- *)
+Theorem apply_ok : forall n c f ms S,
   Forall (smono_ok n) ms -> smonos_op n ms = denote n f ->
   (fst (terms_of ms) <> [] \/ snd (terms_of ms) <> zi0) -> wfm (2 ^ n) c S ->
   apply_gates n (terms_of ms) S = apply_spec n f S.
-Proof. exact apply_fixed. Qed.
-Print Assumptions apply_ok_fixed.
+Proof. exact apply_full. Qed.
+Print Assumptions apply_ok.
 
-(* ---- expectation values ---- *)
-Theorem expectation_ok_refuted : exists n f ms psi,
-  form_ok n f = true /\ smonos_op n ms = denote n f /\ wfm (2 ^ n) 1 psi /\
-  sym_expect_state_prefix n (terms_of ms) psi <> dense_expect_state (denote n f) psi.
+Example apply_ok_nonvacuous :   (* several factors on one qubit: X0*Y0 *)
+  let ms := [(zi1, [SF PX 0 1; SF PY 0 1])] in
+  Forall (smono_ok 1) ms /\ smonos_op 1 ms = denote 1 (FMul (FSym PX 0) (FSym PY 0)) /\ fst (terms_of ms) <> [] /\
+  apply_gates 1 (terms_of ms) [[zi1]; [zi0]] = [[zii]; [zi0]].
 Proof.
-  exists 1, w_ixy, w_ixy_ms, w_psi0. destruct expectation_refuted_witness as (H1 & H2 & _ & H4 & H5).
-  repeat split; try assumption. repeat constructor. rewrite H4, H5. discriminate.
+  split; [repeat constructor|]. split; [vm_compute; reflexivity|]. split; [discriminate|vm_compute; reflexivity].
 Qed.
-Print Assumptions expectation_ok_refuted.
 
-Theorem expectation_ok_partial : forall n f ms psi rho,
+(* ---- expectation values on state vectors and density matrices ---- *)
+Theorem expectation_ok : forall n f ms psi rho,
   Forall (smono_ok n) ms -> smonos_op n ms = denote n f ->
-  one_factor_per_qubit (fst (terms_of ms)) = true ->
   (fst (terms_of ms) <> [] \/ snd (terms_of ms) <> zi0) ->
   wfm (2 ^ n) 1 psi -> wfm (2 ^ n) (2 ^ n) rho ->
-  sym_expect_state_prefix n (terms_of ms) psi = dense_expect_state (denote n f) psi /\
-  sym_expect_dm_prefix n (terms_of ms) rho = dense_expect_dm (denote n f) rho.
-Proof. exact expectation_partial. Qed.
-Print Assumptions expectation_ok_partial.
+  sym_expect_state n (terms_of ms) psi = dense_expect_state (denote n f) psi /\
+  sym_expect_dm n (terms_of ms) rho = dense_expect_dm (denote n f) rho.
+Proof. exact expectation_full. Qed.
+Print Assumptions expectation_ok.
 
 (* ---- algebra ---- *)
 Theorem algebra_ok : forall n f g c,
@@ -124,24 +95,39 @@ Print Assumptions eig_rescale_ok.
 Example eig_rescale_nonvacuous : ascending [(-3)%Z; 0%Z; 0%Z; 5%Z] /\ eig_rescale (-2) [(-3)%Z; 0%Z; 0%Z; 5%Z] = [(-10)%Z; 0%Z; 0%Z; 6%Z].
 Proof. split; [repeat constructor; discriminate|reflexivity]. Qed.
 
-(* ---- expectation from samples ---- *)
-Theorem samples_expectation_ok_refuted : exists n f ms fr qmap num,
-  smonos_op n ms = denote n f /\ sym_samples_prefix (terms_of ms) fr qmap = Some (num, ftotal fr) /\
-  num <> samples_spec n (denote n f) fr qmap.
-Proof.
-  exists 2, w_zzz, w_zzz_ms, w_freq, [0; 1], (-4)%Z.
-  destruct samples_refuted_witness as (H1 & H2 & H3). repeat split; try assumption. rewrite H3. discriminate.
-Qed.
-Print Assumptions samples_expectation_ok_refuted.
+(* ---- expectation from samples ----
+   symbolic route: every term a product of Z symbols (anything else is refused), every factor's qubit
+   in the map, keys with one bit per mapped qubit; several Z on one qubit are counted with multiplicity *)
+Theorem samples_expectation_ok : forall n f ms fr qmap,
+  Forall (smono_ok n) ms -> smonos_op n ms = denote n f ->
+  ts_ok n qmap (fst (terms_of ms)) ->
+  Forall (fun kc : list bool * Z => length (fst kc) = length qmap) fr ->
+  sym_samples (terms_of ms) fr qmap = Some (samples_spec n (denote n f) fr qmap, ftotal fr).
+Proof. exact samples_symbolic. Qed.
+Print Assumptions samples_expectation_ok.
 
-Theorem samples_dense_partial_map_refuted : exists n M fr qmap num,
-  is_diag M = true /\ length M = 2 ^ n /\ dense_samples_prefix M fr qmap = Some (num, ftotal fr) /\
-  num <> samples_spec n M fr qmap.
+Example samples_expectation_nonvacuous :   (* Z0*Z1*Z0 = Z1 *)
+  let ms := [(zi1, [SF PZ 0 1; SF PZ 1 1; SF PZ 0 1])] in
+  Forall (smono_ok 2) ms /\ ts_ok 2 [0; 1] (fst (terms_of ms)) /\
+  sym_samples (terms_of ms) [([false; false], 2%Z); ([true; false], 6%Z)] [0; 1] = Some (8%Z, 8%Z).
 Proof.
-  exists 3, (denote 3 (FSym PZ 0)), [([false], 2%Z); ([true], 6%Z)], [0], 8%Z.
-  destruct dense_samples_partial_witness as (H1 & H2 & H3). repeat split; try assumption. rewrite H3. discriminate.
+  split; [repeat constructor|]. split; [|vm_compute; reflexivity].
+  intros t [<-|[]]. split; [reflexivity|]. cbn. intros q [<-|[<-|[<-|[]]]]; cbn; auto.
 Qed.
-Print Assumptions samples_dense_partial_map_refuted.
+
+(* dense route (size = log2 len(obs)): any duplicate-free qubit map inside the register, full or
+   partial; unmapped qubits are read as 0 *)
+Theorem samples_dense_ok : forall n M fr qmap,
+  is_diag M = true -> length M = 2 ^ n -> NoDup qmap -> (forall q, In q qmap -> q < n) ->
+  Forall (fun kc : list bool * Z => length (fst kc) = length qmap) fr ->
+  dense_samples M fr qmap = Some (samples_spec n M fr qmap, ftotal fr).
+Proof. exact samples_dense_live. Qed.
+Print Assumptions samples_dense_ok.
+
+Example samples_dense_nonvacuous :   (* Z0 on three qubits, partial map [0] *)
+  let M := denote 3 (FSym PZ 0) in
+  is_diag M = true /\ length M = 8 /\ dense_samples M [([false], 2%Z); ([true], 6%Z)] [0] = Some ((-4)%Z, 8%Z).
+Proof. repeat split; vm_compute; reflexivity. Qed.
 
 (* ---- model builders (hamiltonians/models.py): dense builder = documented formula, for every n.
         Heisenberg / XXZ / XXX are covered by the correspondence only (n = 2..5), not proved. ---- *)
@@ -161,17 +147,3 @@ Print Assumptions models_ok_maxcut.
 Example models_nonvacuous : tfim_dense 3 2 = denote 3 (tfim_form 3 2) /\ length (tfim_dense 3 2) = 8.
 Proof. split; vm_compute; reflexivity. Qed.
 
-(* ---- expectation from samples, dense route, proved part: the qubit map is a permutation of the
-        whole register and every key has one bit per qubit.  (Partial maps: refuted above.  The
-        symbolic route for terms with one Z per qubit is covered by the correspondence only.) ---- *)
-Theorem samples_dense_ok_partial : forall n M fr qmap,
-  is_diag M = true -> length M = 2 ^ n -> Permutation qmap (seq 0 n) ->
-  Forall (fun kc : list bool * Z => length (fst kc) = n) fr ->
-  dense_samples_prefix M fr qmap = Some (samples_spec n M fr qmap, ftotal fr).
-Proof. exact samples_dense_perm. Qed.
-Print Assumptions samples_dense_ok_partial.
-
-Example samples_dense_nonvacuous :
-  let M := denote 2 (FAdd (FSym PZ 0) (FMul (FNum (2, 0)%Z) (FSym PZ 1))) in
-  is_diag M = true /\ dense_samples_prefix M [([true; false], 3%Z); ([false; false], 5%Z)] [1; 0] = Some (12%Z, 8%Z).
-Proof. split; vm_compute; reflexivity. Qed.
